@@ -690,7 +690,9 @@ fn lex_source_into_buffer<'source: 'tokens, 'tokens: 'buffer, 'buffer>(
 					{
 						let start_of_escape = location.end - 1;
 						location.end += 1;
-						match iter.next()
+						// A backslash at the end of a line escapes nothing:
+						// the literal ends with the line, as an unclosed one does.
+						match iter.next_if(|&(_, y)| y != b'\n')
 						{
 							Some((_, b'n')) => push_byte(b'\n'),
 							Some((_, b'r')) => push_byte(b'\r'),
@@ -842,7 +844,9 @@ fn lex_source_into_buffer<'source: 'tokens, 'tokens: 'buffer, 'buffer>(
 					{
 						let start_of_escape = location.end - 1;
 						location.end += 1;
-						match iter.next()
+						// A backslash at the end of a line escapes nothing:
+						// the literal ends with the line, as an unclosed one does.
+						match iter.next_if(|&(_, y)| y != b'\n')
 						{
 							Some((_, b'n')) => push_byte(b'\n'),
 							Some((_, b'r')) => push_byte(b'\r'),
